@@ -388,7 +388,7 @@ def _hist_worker(job):
         for k, d in check_case(c):
             s.fail(k, c, d)
 
-    H.hyp_run(case(), body, n, seed)
+    H.hyp_run(case(), body, n, seed, stats=s)
     return s
 
 
@@ -418,7 +418,7 @@ def _thread_worker(job):
         for k, d in check_case(c):
             s.fail(k, c, d)
 
-    H.hyp_run(case(), body, n, seed)
+    H.hyp_run(case(), body, n, seed, stats=s)
     return s
 
 
